@@ -54,6 +54,10 @@ type VerifTunnel struct {
 	PendingDel  bool         `json:"pendingDeletion"`
 	Hs1         string       `json:"hs1"` // stage-1 noise message this tunnel was created from (hex of a hash)
 	Hs2         string       `json:"hs2"` // cached stage-2 reply (responder side), "" otherwise
+	In          bool         `json:"in"`
+	Out         bool         `json:"out"`
+	LastRoam    string       `json:"lastRoam"`
+	RxMax       uint64       `json:"rxMax"`
 }
 
 type VerifRelay struct {
@@ -88,6 +92,10 @@ func verifTunnel(h *HostInfo) VerifTunnel {
 	if r := h.GetRemote(); r.IsValid() {
 		t.Remote = r.String()
 	}
+	t.In, t.Out = h.in.Load(), h.out.Load()
+	if !h.lastRoam.IsZero() {
+		t.LastRoam = h.lastRoamRemote.String()
+	}
 	if cs := h.ConnectionState; cs != nil {
 		t.Hs1 = verifStage(h, handshakePacketStage0, cs.initiator)
 		if !cs.initiator {
@@ -95,6 +103,9 @@ func verifTunnel(h *HostInfo) VerifTunnel {
 		}
 		t.Initiator = cs.initiator
 		t.Counter = cs.messageCounter.Load()
+		cs.decryptLock.Lock()
+		t.RxMax = cs.window.current
+		cs.decryptLock.Unlock()
 		if cs.peerCert != nil {
 			t.CertName = cs.peerCert.Certificate.Name()
 			for _, n := range cs.peerCert.Certificate.Networks() {
@@ -162,4 +173,45 @@ func (c *Control) VerifTunWrite() (int, error) {
 func (c *Control) VerifForceClose() {
 	c.cancel()
 	_ = c.f.Close()
+}
+
+// VerifLighthouse returns a digest of the lighthouse cache (every owner's cached addresses and relays).
+func (c *Control) VerifLighthouse() map[string]any {
+	lh := c.f.lightHouse
+	out := map[string]any{}
+	lh.RLock()
+	lists := map[netip.Addr]*RemoteList{}
+	for a, rl := range lh.addrMap {
+		lists[a] = rl
+	}
+	lh.RUnlock()
+	for a, rl := range lists {
+		out[a.String()] = map[string]any{"cache": rl.CopyCache(), "blocked": rl.CopyBlockedRemotes()}
+	}
+	return out
+}
+
+// VerifSend has this node send one encrypted message of the given type to the overlay address.
+func (c *Control) VerifSend(t header.MessageType, st header.MessageSubType, to netip.Addr, payload []byte) {
+	c.f.SendMessageToVpnAddr(t, st, to, payload, make([]byte, 12, 12), make([]byte, mtu))
+}
+
+// VerifLighthouseQuery / VerifControlMsg build real inner messages for the lighthouse and control types.
+func VerifLighthouseQuery(about netip.Addr) []byte {
+	msg := &NebulaMeta{Type: NebulaMeta_HostQuery, Details: &NebulaMetaDetails{}}
+	if about.Is4() {
+		b := about.As4()
+		msg.Details.OldVpnAddr = uint32(b[0])<<24 | uint32(b[1])<<16 | uint32(b[2])<<8 | uint32(b[3])
+	} else {
+		msg.Details.VpnAddr = netAddrToProtoAddr(about)
+	}
+	b, _ := msg.Marshal()
+	return b
+}
+
+func VerifControlMsg(from, to netip.Addr, idx uint32) []byte {
+	req := NebulaControl{Type: NebulaControl_CreateRelayRequest, InitiatorRelayIndex: idx,
+		RelayFromAddr: netAddrToProtoAddr(from), RelayToAddr: netAddrToProtoAddr(to)}
+	b, _ := req.Marshal()
+	return b
 }
